@@ -20,6 +20,15 @@ def rand_attr(rng):
     return [list(p) for p in rng.choice(A_CHOICES)]
 
 
+# attribute dicts given per item (bulk formats with an attribute dict, the dict-of-dicts setter) may use
+# any hashable name, also one that is a parameter name of the adding methods or not a string
+A_ITEM_CHOICES = A_CHOICES + [[[5, [0, 1]]], [[6, [0, 2]], [1, [0, 3]]], [[7, [2]]], [[10, [0, 4]]], [[5, [0, 6]], [10, [1, 2]]]]
+
+
+def rand_item_attr(rng):
+    return [list(p) for p in rng.choice(A_ITEM_CHOICES)]
+
+
 def rand_members(rng, nn, allow_none=True):
     k = rng.choice([0, 1, 1, 2, 2, 2, 3, 3, 4])
     m = [rng.randrange(nn) for _ in range(k)]
@@ -69,7 +78,7 @@ def rand_op(rng, j, nn=6, weights=None, force=None):
         return mkop(name, n=-1 if rng.random() < 0.03 else rng.randrange(nn), a=rand_attr(rng))
     if name == "add_nodes_from":
         fmt = rng.choice([1, 2])
-        its = [item(id=-1 if rng.random() < 0.03 else rng.randrange(nn), a=rand_attr(rng) if fmt == 2 else [])
+        its = [item(id=-1 if rng.random() < 0.03 else rng.randrange(nn), a=rand_item_attr(rng) if fmt == 2 else [])
                for _ in range(rng.randrange(0, 4))]
         return mkop(name, fmt=fmt, items=its, a=rand_attr(rng))
     if name == "remove_node":
@@ -87,7 +96,7 @@ def rand_op(rng, j, nn=6, weights=None, force=None):
         if fmt == 2:
             return mkop(name, fmt=2, k=k, kv=[[i, rng.choice([[0, 4], [2], [1, 9]])] for i in ids])
         if fmt == 3:
-            return mkop(name, fmt=3, kd=[[i, rand_attr(rng)] for i in ids])
+            return mkop(name, fmt=3, kd=[[i, rand_item_attr(rng)] for i in ids])
         return mkop(name, fmt=4)
     if name == "add_edge":
         return mkop(name, m=rand_members(rng, nn), id=-1 if rng.random() < 0.55 else rand_id(rng, j),
@@ -99,7 +108,7 @@ def rand_op(rng, j, nn=6, weights=None, force=None):
         for _ in range(n):
             its.append(item(m=rand_members(rng, nn, allow_none=rng.random() < 0.3),
                             id=rand_id(rng, j) if fmt in (2, 4, 5) else -1,
-                            a=rand_attr(rng) if fmt in (3, 4) else []))
+                            a=rand_item_attr(rng) if fmt in (3, 4) else []))
         if fmt == 5:  # dict keys are unique
             seen, u = set(), []
             for it in its:
@@ -147,7 +156,7 @@ def rand_op(rng, j, nn=6, weights=None, force=None):
     if name == "update":
         fmt = rng.choice([1, 2, 4])
         its = [item(m=rand_members(rng, nn, allow_none=False), id=rand_id(rng, j) if fmt != 1 else -1,
-                    a=rand_attr(rng) if fmt == 4 else []) for _ in range(rng.randrange(0, 3))]
+                    a=rand_item_attr(rng) if fmt == 4 else []) for _ in range(rng.randrange(0, 3))]
         return mkop(name, ns=[rng.randrange(nn) for _ in range(rng.randrange(0, 3))], fmt=fmt, items=its)
     if name == "merge_duplicate_edges":
         rename = rng.choice(["first", "first", "tuple", "new", "new", "bogus"])
